@@ -22,6 +22,7 @@ import (
 	"github.com/ipfs/boxo/ipld/unixfs/importer/balanced"
 	ihelper "github.com/ipfs/boxo/ipld/unixfs/importer/helpers"
 	"github.com/ipfs/boxo/ipld/unixfs/importer/trickle"
+	ft "github.com/ipfs/boxo/ipld/unixfs"
 	uio "github.com/ipfs/boxo/ipld/unixfs/io"
 	"github.com/ipfs/boxo/verifshim/eng"
 	ds "github.com/ipfs/go-datastore"
@@ -46,6 +47,7 @@ type fileSpec struct {
 	Raw      bool   `json:"raw"`
 	Trickle  bool   `json:"trickle"`
 	Via      string `json:"via"` // "" = /ipfs/<cid>; otherwise /ipfs/<dir>/<Via>
+	Symlink  bool   `json:"symlink,omitempty"` // a UnixFS symlink whose target text has Size bytes (served through the same serveFile path)
 }
 
 func (f fileSpec) String() string {
@@ -53,7 +55,20 @@ func (f fileSpec) String() string {
 	if f.Trickle {
 		l = "trickle"
 	}
+	if f.Symlink {
+		return fmt.Sprintf("symlink size=%d via=%q", f.Size, f.Via)
+	}
 	return fmt.Sprintf("size=%d chunk=%d maxlinks=%d raw=%v %s via=%q", f.Size, f.Chunk, f.MaxLinks, f.Raw, l, f.Via)
+}
+
+// linkTarget: a relative path of n bytes in which no two windows of 2 bytes are equal (n <= 70).
+func linkTarget(n int) []byte {
+	const alpha = "abcdefghijklmnopqrstuvwxyz0123456789"
+	b := []byte("../")
+	for i := 0; len(b) < n; i++ {
+		b = append(b, alpha[(i*7+i/36)%36])
+	}
+	return b[:n]
 }
 
 // content byte i: a pattern in which every window of 2 bytes identifies its
@@ -82,6 +97,14 @@ func newWorld() *world {
 
 // add builds the file with the real importer and returns the request path.
 func (w *world) add(f fileSpec) (string, []byte) {
+	if f.Symlink {
+		data := linkTarget(f.Size)
+		pb, err := ft.SymlinkData(string(data))
+		must(err)
+		nd := merkledag.NodeWithData(pb)
+		must(w.dserv.Add(context.Background(), nd))
+		return w.place(f, nd), data
+	}
 	data := content(f.Size)
 	p := ihelper.DagBuilderParams{Dagserv: w.dserv, Maxlinks: f.MaxLinks, RawLeaves: f.Raw}
 	if f.Raw {
@@ -98,8 +121,13 @@ func (w *world) add(f fileSpec) (string, []byte) {
 		nd, err = balanced.Layout(db)
 	}
 	must(err)
+	return w.place(f, nd), data
+}
+
+// place returns the request path of nd: its own CID, or an entry of a fresh directory.
+func (w *world) place(f fileSpec, nd format.Node) string {
 	if f.Via == "" {
-		return "/ipfs/" + nd.Cid().String(), data
+		return "/ipfs/" + nd.Cid().String()
 	}
 	d, err := uio.NewBasicDirectory(w.dserv)
 	must(err)
@@ -107,7 +135,7 @@ func (w *world) add(f fileSpec) (string, []byte) {
 	dn, err := d.GetNode()
 	must(err)
 	must(w.dserv.Add(context.Background(), dn))
-	return "/ipfs/" + dn.Cid().String() + "/" + f.Via, data
+	return "/ipfs/" + dn.Cid().String() + "/" + f.Via
 }
 
 // ---------------------------------------------------------------------------
@@ -489,6 +517,8 @@ func orNone(s string) string {
 func rootKind(f fileSpec) string {
 	multi := f.Size > f.Chunk
 	switch {
+	case f.Symlink:
+		return "symlink"
 	case !multi && f.Raw:
 		return "raw-block"
 	case !multi:
@@ -515,6 +545,9 @@ func fileSpecs(thorough bool) []fileSpec {
 		{Size: 10, Chunk: 3, MaxLinks: 2, Raw: true, Via: "f.txt"},  // content type from the extension (no sniffing)
 		{Size: 10, Chunk: 3, MaxLinks: 2, Via: "noext"},             // through a directory, sniffed
 		{Size: 10, Chunk: 16, MaxLinks: 2, Raw: true, Via: "f.txt"}, // raw block below a directory
+		{Size: 10, Chunk: 16, Symlink: true},                        // UnixFS symlink addressed by CID
+		{Size: 10, Chunk: 16, Symlink: true, Via: "lnk"},            // symlink below a directory
+		{Size: 1, Chunk: 16, Symlink: true},
 	}
 	if thorough {
 		fs = append(fs,
@@ -523,6 +556,8 @@ func fileSpecs(thorough bool) []fileSpec {
 			fileSpec{Size: 4000, Chunk: 4096, MaxLinks: 2, Raw: true},   // one raw block > sniff window
 			fileSpec{Size: 37, Chunk: 5, MaxLinks: 3, Raw: true},
 			fileSpec{Size: 37, Chunk: 5, MaxLinks: 3, Trickle: true, Via: "f.bin"},
+			fileSpec{Size: 34, Chunk: 64, Symlink: true},
+			fileSpec{Size: 34, Chunk: 64, Symlink: true, Via: "lnk.txt"},
 		)
 	} else {
 		fs = append(fs, fileSpec{Size: 4000, Chunk: 1024, MaxLinks: 2, Raw: true})
